@@ -121,7 +121,7 @@ def run_check(mod, tier, seed, deadline_s=None):
     shards = list(plan["shards"])
     n = len(shards)
     if deadline_s is None:
-        deadline_s = float(os.environ.get("ARMMC_DEADLINE", plan.get("deadline_s", 100 if tier == "quick" else 1500)))
+        deadline_s = float(os.environ.get("ARMMC_DEADLINE", plan.get("deadline_s", 300 if tier == "quick" else 1500)))
     order = list(range(n))
     if n and seed:
         k = seed % n
